@@ -20,7 +20,7 @@ def configs(tier):
     out = []
     N = 4 if tier == "quick" else 8
     for kind in ("ode", "statio1", "statio2", "nonstatio1", "nonstatio2", "nonstatio1_nocart", "param"):
-        for (n, b) in ((N, 2), (3, 3)) if tier == "quick" else ((N, 2), (N, 3), (3, 3), (5, 2)):
+        for (n, b) in ((N, 2), (3, 3), (3, 2)) if tier == "quick" else ((N, 2), (N, 3), (3, 3), (5, 2), (3, 2)):
             out.append(dict(kind=kind, n=n, b=b, part="uniform", x64=False))
     doms = [(0.0, 1.0), (-2.0, 0.5)] if tier == "quick" else [(0.0, 1.0), (-2.0, 0.5), (0.1, 0.3), (-7.0, -3.0)]
     for gen in ("ode", "statio1", "nonstatio_t", "param", "statio2"):
@@ -55,7 +55,7 @@ def run(cfg, R):
     if cfg["part"] == "grid": return run_grid(cfg, R)
     if cfg["part"] == "grid_values": return run_grid_values(cfg, R)
     kind, n, b = cfg["kind"], cfg["n"], cfg["b"]
-    ncalls = 3 if R.tier == "quick" else 4
+    ncalls = 4 if R.tier == "quick" else 5
     R.note(stubs_=["jax.random.split -> fresh opaque keys", "jax.random.uniform -> minval+(maxval-minval)*U, 0<=U<1",
                    "jax.random.choice(replace=False) -> a[pi], pi arbitrary permutation"])
     key = jax.random.PRNGKey(5)
